@@ -107,6 +107,7 @@ def hazards(ctx: Ctx, funcs, clause: str = "S0"):
     from rules.sentinel import SentinelTaint
     from rules.trunc import TruncAnalysis
     from rules.strided import absolute_offset_views
+    from rules.negzero import negative_length_bounds
     from rules.excmatch import ArgcheckRaises, mismatched_handlers
     from rules.boundary import length_equals_position
     from sa.astutil import u
@@ -167,6 +168,13 @@ def hazards(ctx: Ctx, funcs, clause: str = "S0"):
                    (f"`{u(blp[0]['node'])}` marks a length (0..T) by equality in an index range of extent "
                     f"`{blp[0]['extent']}`: the boundary T is never marked") if blp else "", rel,
                    blp[0]["node"].lineno if blp else f.line, nontrivial=False)
+        nz = negative_length_bounds(f)
+        if nz:
+            bnz = [x for x in nz if not x["ok"]]
+            col.ob("G28", clause, f"{where}::no-negative-zero-slice-bound", not bnz,
+                   (f"`{u(bnz[0]['node'])}` ends at `{bnz[0]['bound']}`, the negated length of a string that may be empty: "
+                    f"for length 0 this is `[..:0]`, the empty sequence, not the whole tail") if bnz else "", rel,
+                   bnz[0]["node"].lineno if bnz else f.line, nontrivial=False)
         sv = absolute_offset_views(f)
         if sv:
             bsv = [x for x in sv if not x["ok"]]
